@@ -4,14 +4,19 @@
  * and whether they are un-compressed, so two requests for the same location
  * with different size words have different answers on a fresh reader.
  *
- * Arbitrary cache state: empty (data_block == NULL), or a block_size buffer
- * with any tag; ghost g_tag_word = the size word the cached block was loaded
- * with (the real structure has no field for it).
+ * Every reachable state of this cache is "empty" or "the result of the last
+ * load" (a load replaces the whole cache, a hit changes nothing), so instead
+ * of a history the harness takes: empty cache, one arbitrary request
+ * (location1, word1) with arbitrary outcome - that is the arbitrary reachable
+ * state, and it ties the cached payload to the word it was loaded with
+ * through the real code - then the request under test (location, word).
+ * Block size symbolic (every legal size in one run).
  *
  *   C10.data.block_ok_tag      ret == 0 => data_block != NULL, current_block
  *                              == location, buffer has block_size bytes
  *   C10.data.block_key_word    ret == 0 without a load (hit) => the cached
- *                              block was loaded with the same size word
+ *                              block was loaded for the same location AND the
+ *                              same size word
  *   C10.data.block_hit_clean   same (location, word) cached => ret == 0, no
  *                              environment call, same buffer
  *   C10.data.block_miss_loaded ret == 0 with a load => exactly one read at
@@ -30,7 +35,6 @@
 
 void harness(void)
 {
-	dr_wrap_t *w = calloc(1, sizeof(*w));	/* calloc: see dr_common.h */
 	sqfs_data_reader_t *rd;
 	sqfs_u64 location, old_tag;
 	sqfs_u32 word, g_tag_word, disksz;
@@ -38,27 +42,22 @@ void harness(void)
 	bool cached, same_key, loaded;
 	int ret;
 
-	VERIF_ASSUME(w != NULL);
 	env_init();
 	env_objects_init();
-	dr_base_init(w, NULL);
-	rd = &w->rd;
+	rd = dr_new(NULL);
 
-	cached = verif_nd_bool("cached");
-	if (cached) {
-		rd->data_block = malloc(BS);
-		VERIF_ASSUME(rd->data_block != NULL);
-		rd->data_blk_size = verif_nd_size("blk_size");
-		VERIF_ASSUME(rd->data_blk_size <= BS);
-	}
-	rd->current_block = verif_nd_u64("tag");
+	/* the arbitrary reachable state: empty, or loaded for (tag, tag.word) */
+	old_tag = verif_nd_u64("tag");
 	g_tag_word = verif_nd_u32("tag.word");
+	if (verif_nd_bool("preload"))
+		(void)precache_data_block(rd, old_tag, g_tag_word);
+	cached = (rd->data_block != NULL);
+	env_init();	/* forget the log of the preload */
 
 	location = verif_nd_u64("location");
 	word = verif_nd_u32("word");
 	disksz = SQFS_ON_DISK_BLOCK_SIZE(word);
 
-	old_tag = rd->current_block;
 	old_blk = rd->data_block;
 	same_key = cached && old_tag == location && g_tag_word == word;
 
@@ -99,7 +98,7 @@ void harness(void)
 			     "C10.data.block_ok_tag");
 		if (cached && rd->data_block == old_blk && g_env_seq == 0) {
 			/* answered from the cache */
-			VERIF_ASSERT(g_tag_word == word,
+			VERIF_ASSERT(old_tag == location && g_tag_word == word,
 				     "C10.data.block_key_word");
 		} else {
 			VERIF_ASSERT(loaded, "C10.data.block_miss_loaded");
@@ -120,6 +119,5 @@ void harness(void)
 	VERIF_COVER(ret == 0 && g_env_seq == 0 && !cached);
 	VERIF_COVER(ret != 0 && g_rd_n == 0);
 	VERIF_COVER(ret != 0 && g_rd_n == 1);
-	free(rd->data_block);
-	free(w);
+	dr_delete(rd);
 }
